@@ -173,28 +173,36 @@ def r3(repo, res):
 
 
 def r4(repo, res):
+    from checks._sampleinit import fold_sample_init
+
     wf, wc, w = writer_tuple(repo)
     init = repo.func("sam::Sample.__init__")
-    dc = find_calls(init, "_dump_alignments")
-    if not dc:
-        res.err("C17.R4", "dump call not found in Sample.__init__")
+    res.analysed(init)
+    # the constructor folded whole: the dump writer runs exactly once for alignment input under debug, on the loader's tables
+    pref = None
+    for kind, debug, long_reads in [("sam", "/scratch/d/S", False), ("sam", "/scratch/d/S", True), ("sam", None, False), ("dump", "/scratch/d/S", False),
+                                    ("vcf", "/scratch/d/S", False), ("pscan", "/scratch/d/S", False)]:
+        try:
+            k, v, calls, me, tables = fold_sample_init(repo, kind, debug, long_reads=long_reads)
+        except Unfoldable as e:
+            res.err("C17.R4", f"Sample.__init__ outside the folding language: {e}")
+            return
+        dumps = [c_ for c_ in calls if c_[0] == "_dump_alignments"]
+        want = 1 if (kind == "sam" and debug) else 0
+        ok = k == "return" and len(dumps) == want
+        if ok and want:
+            a_ = dumps[0][1]
+            ok = len(a_) == 3 and isinstance(a_[0], str) and a_[1] == tables["norm"] and a_[2] == tables["muts"]
+            if ok and pref is None:
+                pref = a_[0]
+        res.ob("C17.R4", init, init, ok,
+               expected=f"input kind {kind!r}{', long reads' if long_reads else ''}, debug {debug!r}: the dump writer runs {'once, on the tables the loader returned' if want else 'not at all'}",
+               found=f"{k} {v or ''}; calls {[c_[0] for c_ in calls]}", clause="the debug archive written for a run",
+               key=f"dump-guard:{kind}:{bool(debug)}" + (":long" if long_reads else ""))
+    if pref is None:
         return
-    c = cfg_of(init)
-    # only for alignment input under debug
-    for env, want in [({"self.kind": "sam", "debug": "/tmp/d/S"}, True), ({"self.kind": "sam", "debug": None}, False),
-                      ({"self.kind": "dump", "debug": "/tmp/d/S"}, False), ({"self.kind": "vcf", "debug": "/tmp/d/S"}, False)]:
-        removed = c.prune(decide_with(env))
-        got = c.is_reachable(c.node_of(dc[0]), removed)
-        res.ob("C17.R4", init, dc[0], got == want,
-               expected=f"dump written iff alignment input and debug set ({env} -> {want})", found=str(got),
-               key=f"dump-guard:{env['self.kind']}:{bool(env['debug'])}")
-    # member templates
+    pref = pref.replace("/scratch/d/S", "/tmp/d/S")
     prefix_param = wf.args.args[1].arg
-    try:
-        pref = Evaluator({"debug": "/tmp/d/S", "gene.name": "G", "self.gene.name": "G"}).ev(dc[0].args[0])
-    except (Unfoldable, Raised) as e:
-        res.err("C17.R4", f"dump prefix expression is outside the folding language: {e}")
-        return
     names = []
     for call in calls_in(wf):
         if call_name(call) in ("open", "gzip.open") and call.args:
@@ -326,6 +334,9 @@ def r6(repo, res):
         res.err("C17.R6", "dump call not found in Sample.__init__")
         return
     tables = [a.id for a in dc[0].args[1:] if isinstance(a, ast.Name)]
+    if len(tables) != 2:
+        res.err("C17.R6", "the dump writer is not handed the two tables as local names (whether it gets the loader's tables is decided by R4)")
+        return
     dn = c.node_of(dc[0])
     between = []
     for x in calls_in(init):
@@ -556,8 +567,8 @@ def r8(repo, res):
     wf = repo.func("sam::Sample._dump_alignments")
     rf = repo.func("sam::Sample._load_dump")
     dg = repo.func("sam::detect_genome")
-    init = repo.func("sam::Sample.__init__")
-    dc = find_calls(init, "_dump_alignments")
+    from checks._sampleinit import fold_sample_init
+
     res.analysed(wf, rf, dg)
     files = {}
 
@@ -611,8 +622,11 @@ def r8(repo, res):
         for g in genes:
             me = Obj(gene=Obj(name=g, genome="hg38"), profile=Obj(cn_region=None), name=f"S-{g}", _dump_cn={1: 1}, _fusion_counter={}, _indel_sites={},
                      phases={})
-            pref = Evaluator({"debug": prefix, "gene": me.gene, "self": me}).ev(dc[0].args[0]) if dc else f"{prefix}.{g}"
-            Lifted(wf, funcs=io)(me, pref, {1: [(g, 1)]}, {})
+            k_, v_, calls_, _, _ = fold_sample_init(repo, "sam", prefix, gene_name=g)
+            prefs = [c_[1][0] for c_ in calls_ if c_[0] == "_dump_alignments"]
+            if len(prefs) != 1:
+                return   # reported by R4 (dump-guard)
+            Lifted(wf, funcs=io)(me, prefs[0], {1: [(g, 1)]}, {})
     except (Unfoldable, Raised) as e:
         res.err("C17.R8", f"dump writer outside the folding language: {e}")
         return
@@ -730,6 +744,12 @@ MUTANTS = [
          old='    if profile_name in ["exome", "wxs", "wes"]:', new='    if kind != "dump" and profile_name in ["exome", "wxs", "wes"]:'),
     dict(name="R5 neutral table pickled as a plain dict (seeded C17_3 shape)", module="sam", expect="C17.R5",
          old="                    self._dump_cn,\n                    {p: Counter(q) for p, q in norm.items()},", new="                    dict(self._dump_cn),\n                    {p: Counter(q) for p, q in norm.items()},"),
+    dict(name="R4 dump call lost", module="sam", expect="C17.R4",
+         old='            if self.kind == "sam" and debug:\n                self._dump_alignments(f"{debug}.{gene.name}", norm, muts)\n', new='            pass\n'),
+    dict(name="R4 dump written for short reads only", module="sam", expect="C17.R4",
+         old='            if self.kind == "sam" and debug:', new='            if self.kind == "sam" and debug and not self.is_long_read:'),
+    dict(name="R4 dump receives a fresh variant table", module="sam", expect="C17.R4",
+         old='self._dump_alignments(f"{debug}.{gene.name}", norm, muts)', new='self._dump_alignments(f"{debug}.{gene.name}", norm, {})'),
     dict(name="R8 debug run skipped", module="__main__", expect="C17.R8",
          old="                run(prefix)\n", new="                pass\n"),
     dict(name="benign: archive only when the run did not crash", module="__main__", kind="benign",
